@@ -87,7 +87,7 @@ func c02Menu(w *mintops.W) []string {
 }
 
 func c02Specs(quick bool) []*bfs.Spec {
-	fees := []uint{0, 100, 1000}
+	fees := []uint{0, 100, 2500}
 	d := 3
 	if !quick {
 		fees = []uint{0, 1, 100, 999, 1000, 2500}
@@ -109,7 +109,7 @@ var c02All = specMap(c02Specs(true), c02Specs(false))
 func init() {
 	register(&Prop{ID: "C02", Level: "model_checking", QuickBudget: 100 * time.Second, ThoroughBudget: 25 * time.Minute,
 		Run: func(c *rt.Ctx) {
-			c.Cov["rule"] = "E3, one search per input_fee_ppk (quick {0,100,1000}, thorough {0,1,100,999,1000,2500}) plus one with MPP: every history up to the depth bound over {mint quote, settle, mint x {exact, less, +1, 2^63+2^63 wrap-around, amount 3}, swap x {inputs-fee, +1, inputs, wrap-around} on single / paired / mixed-keyset inputs, melt quote (external, internal, MPP partial), melt with inputs exactly amount+reserve+fee and one less x {Succeeded, Failed->Failed, Pending}, poll x {Succeeded, Failed}, rotate to a second fee}; Lightning model charges the whole fee limit; invariant in every state: outstanding ecash + Lightning outflow incl. fee limits (+ in-flight beyond locked inputs) <= Lightning inflow + internal settlements, and every fee limit handed to the backend <= the quote's fee_reserve"
+			c.Cov["rule"] = "E3, one search per input_fee_ppk (quick {0,100,2500}, thorough {0,1,100,999,1000,2500}) plus one with MPP: every history up to the depth bound over {mint quote, settle, mint x {exact, less, +1, 2^63+2^63 wrap-around, amount 3}, swap x {inputs-fee, +1, inputs, wrap-around} on single / paired / mixed-keyset inputs, melt quote (external, internal, MPP partial), melt with inputs exactly amount+reserve+fee and one less x {Succeeded, Failed->Failed, Pending}, poll x {Succeeded, Failed}, rotate to a second fee}; Lightning model charges the whole fee limit; invariant in every state: outstanding ecash + Lightning outflow incl. fee limits (+ in-flight beyond locked inputs) <= Lightning inflow + internal settlements, and every fee limit handed to the backend <= the quote's fee_reserve"
 			runSpecs(c, c02Specs(c.Quick()))
 		},
 		Worker: bfs.Worker(c02All),
